@@ -65,7 +65,7 @@ func (ex *Exec) callFn(fr *Frame, st *State, pc *Term, fn *ssa.Function, args []
 		base = base[i+1:]
 	}
 	switch base {
-	case "verif_forall":
+	case "verif_forall", "verif_forall2", "verif_forall3":
 		return ex.specForall(fr, st, pc, args[0]), pc
 	case "verif_forall_range":
 		return ex.specForallRange(fr, st, pc, args[0].(VBV).T, args[1].(VBV).T, args[2]), pc
@@ -543,7 +543,7 @@ func (ex *Exec) builtin(fr *Frame, st *State, pc *Term, b *ssa.Builtin, cc *ssa.
 		pn, ps, _, _ := mapComps(mt)
 		c0 := st.comp(pn, ps)
 		ex.noteWrite(pn)
-		st.setComp(pn, Store(c0, m.T, Store(Select(c0, m.T), keyTerm(args[1]), False)))
+		st.setComp(pn, Store(c0, m.T, storeN(Select(c0, m.T), keyTerm(args[1]), False)))
 		return VTuple{}
 	case "print", "println":
 		return VTuple{}
